@@ -164,7 +164,7 @@ func genCondsFrom(t *rapid.T, min, max int, cands []interface{}) []Cond {
 				dup = true
 			}
 		}
-		if dup || k == "" || strings.ContainsAny(k, ":|=>§") { // a sub-key argument needs a name, and one that no separator splits
+		if dup || k == "" || strings.ContainsAny(k, ":|=>§\t") { // a sub-key argument needs a name, and one that no separator splits
 			continue
 		}
 		if strings.HasPrefix(k, "!") {
